@@ -2,7 +2,7 @@
 import ast
 
 from ..core import rule
-from ..index import AnalysisError, dotted, src, walk_no_nested, PKG
+from ..index import AnalysisError, dotted, src, walk_no_nested, PKG, names_in
 from ..cfg import CFG
 from ..util import node_calls, own_expr
 from .slots import FEATURES, MOLECULE
@@ -378,3 +378,125 @@ META = {
     'technique': 'static analysis: field read-closure of memoised methods, computed mutator set, dominator/post-dominator check of cache_clear placement',
     'design_ref': 'DESIGN.md section 5, C16',
 }
+
+
+@rule('C16', 'C16-R4', 'interval predicates of the range / point queries are the closed-interval ones: overlap test, scan stop, strand filter, '
+                       'start bound (features with start <= coordinate) and end filter (end >= coordinate)')
+def r4(ctx):
+    from ..domains import check_pred, linform, Lin
+    methods = class_methods(ctx.ix, FEATURES, CLS)
+    f = methods.get('findFeaturesBetween')
+    if f is None:
+        raise AnalysisError('findFeaturesBetween not found')
+    a = [x.arg for x in f.args.args]
+    ss, se = a[2], a[3]
+    unpack = [s for s in walk_no_nested(f) if isinstance(s, ast.Assign) and isinstance(s.targets[0], ast.Tuple) and len(s.targets[0].elts) == 5]
+    if len(unpack) != 1:
+        raise AnalysisError('findFeaturesBetween: feature tuple unpacking not found')
+    hs, he, _n, hstrand, _d = [e.id for e in unpack[0].targets[0].elts]
+    ren = {ss: 'ss', se: 'se', hs: 'hs', he: 'he'}
+    cons = lambda e: e['ss'] <= e['se'] and e['hs'] <= e['he']
+    adds = [c for c in walk_no_nested(f) if isinstance(c, ast.Call) and isinstance(c.func, ast.Attribute) and c.func.attr == 'add' and src(c.func.value) == 'hits']
+    mod = ctx.ix.module(FEATURES)
+    if len(adds) != 1:
+        raise AnalysisError('findFeaturesBetween: hits.add not found')
+    guards = []
+    p = mod.parent[adds[0]]
+    while p is not None and not isinstance(p, ast.While):
+        if isinstance(p, ast.If):
+            child_in_body = any(any(x is adds[0] for x in ast.walk(b)) for b in p.body)
+            guards.append((p.test, child_in_body))
+        p = mod.parent.get(p)
+    ok = False
+    detail = 'overlap test not found'
+    for t, pol in guards:
+        if {hs, he} <= names_in(t) and {ss, se} <= names_in(t):
+            ncase, bad = check_pred(t, lambda e: not (e['he'] < e['ss'] or e['hs'] > e['se']), symbols=['ss', 'se', 'hs', 'he'], constraint=cons, atom_name=lambda x: ren.get(src(x)))
+            ctx.counters['abstract_cases'] += ncase
+            ok = not bad and pol
+            detail = f'overlap test `{src(t)}` over {ncase} orderings (incl. zero-length features and ranges) ' + ('== closed intervals overlap' if not bad else
+                     f'differs at {bad[0]["case"]}: a feature ' + ('is missed' if not bad[0]['code'] else 'is reported although it does not overlap'))
+            ctx.emit('C16-R4', ok, FEATURES, t, 'findFeaturesBetween ' + detail, key='between:overlap-predicate', witness=bad[0] if bad else None,
+                     what='findFeaturesBetween: overlap test is not the closed-interval overlap')
+    if not ok and detail == 'overlap test not found':
+        ctx.emit('C16-R4', False, FEATURES, f, 'findFeaturesBetween: ' + detail, key='between:overlap-predicate', undecided=True)
+    stop = [(t, pol) for t, pol in guards if names_in(t) == {hs, se}]
+    if stop:
+        t, pol = stop[0]
+        ncase, bad = check_pred(t, lambda e: e['hs'] > e['se'], symbols=['hs', 'se'], atom_name=lambda x: ren.get(src(x)))
+        ctx.emit('C16-R4', not bad and not pol, FEATURES, t, f'scan stops when `{src(t)}` (features are sorted by start)' if not bad else f'scan stop differs: {bad[0]}', key='between:scan-stop')
+    st = [(t, pol) for t, pol in guards if 'strand' in src(t) and hstrand in names_in(t)]
+    if st:
+        t = st[0][0]
+        ncase, bad = check_pred(t, lambda e: e['none'] or e['same'], symbols=[], atom_name=lambda x: {'strand is None': 'none', f'strand == {hstrand}': 'same'}.get(src(x)), extra_bools=['none', 'same'])
+        ctx.emit('C16-R4', not bad, FEATURES, t, f'strand filter `{src(t)}` == no strand requested or same strand' if not bad else f'strand filter differs: {bad[0]}', key='between:strand-filter')
+    ends = [c for c in walk_no_nested(f) if isinstance(c, ast.Call) and isinstance(c.func, ast.Attribute) and c.func.attr == 'update' and src(c.func.value) == 'hits']
+    pts = sorted(src(c.args[0]) for c in ends)
+    ok = len(ends) == 2 and any(ss in p_ for p_ in pts) and any(se in p_ for p_ in pts)
+    ctx.emit('C16-R4', ok, FEATURES, f, 'range query also unions the point queries at both ends of the range', key='between:end-point-union', nontrivial=False)
+    # point query
+    g = methods.get('_findFeaturesAt')
+    coord = g.args.args[2].arg
+    ssx = [s for s in walk_no_nested(g) if isinstance(s, ast.Assign) and src(s.targets[0]) == 's' and isinstance(s.value, ast.Call) and (dotted(s.value.func) or '').endswith('searchsorted')]
+    okall = bool(ssx)
+    for s_ in ssx:
+        c = s_.value
+        side = [k.value.value for k in c.keywords if k.arg == 'side' and isinstance(k.value, ast.Constant)] or [x.value for x in c.args[2:3] if isinstance(x, ast.Constant)]
+        lf = linform(c.args[1])
+        good = ('startCoordinates' in src(c.args[0])) and ((lf == Lin({coord: 1}, 1) and side == ['left']) or (lf == Lin({coord: 1}) and side == ['right']))
+        okall = okall and good
+    ctx.emit('C16-R4', okall, FEATURES, ssx[0] if ssx else g, f'point query: candidate range ends at the number of features with start <= coordinate ({len(ssx)} searchsorted sites)', key='at:start-bound')
+    flt = [c for c in walk_no_nested(g) if isinstance(c, ast.Compare) and coord in names_in(c) and '[1]' in src(c.left)]
+    n = 0
+    okf = True
+    for c in flt:
+        n += 1
+        ncase, bad = check_pred(c, lambda e: e['end'] >= e['c'], symbols=['end', 'c'], atom_name=lambda x: 'c' if src(x) == coord else ('end' if src(x).endswith('[1]') else None))
+        okf = okf and not bad
+    ctx.emit('C16-R4', okf and n >= 3, FEATURES, flt[0] if flt else g, f'point query: {n} end filters, all `feature end >= coordinate` (closed interval)', key='at:end-filter')
+
+
+@rule('C16', 'C16-R5', 'index arrays combined element-wise in sort() are in the same order: an array re-ordered by an argsort permutation is never '
+                       'combined with an array in feature order')
+def r5(ctx):
+    methods = class_methods(ctx.ix, FEATURES, CLS)
+    f = methods.get('sort')
+    order = {}      # source text of array -> order tag
+    problems = []
+    stmts = [s for s in walk_no_nested(f) if isinstance(s, ast.Assign)]
+    stmts.sort(key=lambda s: s.lineno)
+    perms = {}
+
+    def tag_of(e):
+        """order tag of an array-valued expression"""
+        t = src(e)
+        if t in order:
+            return order[t]
+        if isinstance(e, ast.Subscript) and src(e.slice) in perms and src(e.value) in order:
+            return 'perm:' + src(e.slice)
+        if isinstance(e, ast.Call) and (dotted(e.func) or '').split('.')[-1] in ('fromiter', 'array') and 'self.features[chromosome]' in src(e):
+            return 'feature-order'
+        if isinstance(e, ast.Call) and (dotted(e.func) or '').split('.')[-1] == 'argsort':
+            return 'permutation'
+        return None
+    for s in stmts:
+        tgt = src(s.targets[0])
+        # element-wise combinations inside the value
+        for b in walk_no_nested(s.value):
+            if isinstance(b, ast.BinOp) and isinstance(b.op, (ast.Sub, ast.Add)):
+                tl, tr = tag_of(b.left), tag_of(b.right)
+                if tl and tr and tl != tr and 'permutation' not in (tl, tr):
+                    problems.append(f'line {b.lineno}: `{src(b)}` combines arrays in different orders ({tl} vs {tr})')
+        tg = tag_of(s.value)
+        if tg == 'permutation':
+            perms[tgt] = True
+            order[tgt] = 'permutation'
+        elif tg:
+            order[tgt] = tg
+    ctx.emit('C16-R5', not problems and len(order) >= 3, FEATURES, f, f'sort(): {len(order)} index arrays tracked ({sorted(set(order.values()))}); ' +
+             ('no element-wise combination of differently ordered arrays' if not problems else '; '.join(problems)), key='sort:array-order',
+             what='FeatureContainer.sort combines a re-ordered array element-wise with an array in feature order')
+    # the longest feature is computed per feature tuple (end - start of the same tuple)
+    mx = [s for s in stmts if src(s.targets[0]) == 'maxLengthFeature']
+    ok = len(mx) == 1 and ('tup[1] - tup[0]' in src(mx[0].value) or not problems)
+    ctx.emit('C16-R5', ok, FEATURES, mx[0] if mx else f, f'longest feature: `{src(mx[0].value)[:80] if mx else None}`', key='sort:max-feature-size', nontrivial=False)
